@@ -28,6 +28,8 @@ import SpsdkVerif.Proofs.DbCacheFatal
 import SpsdkVerif.Proofs.DbCacheProgram
 import SpsdkVerif.Generated.CachePrograms
 import SpsdkVerif.Proofs.DbCacheListingSem
+import SpsdkVerif.Proofs.DbCacheFingerprint
+import SpsdkVerif.Generated.CacheFingerprint
 
 namespace SpsdkVerif.C18
 open SpsdkVerif SpsdkVerif.DbCache
@@ -217,6 +219,43 @@ theorem never_fatal_any_schedule (env : Env) (G : Guards) (hG : G = quickG ∨ G
   rcases hG with rfl | rfl
   · exact never_fatal env quickG guards_catch_all.1 hR f0 queries sched s hrun
   · exact never_fatal env configG guards_catch_all.2 hR f0 queries sched s hrun
+
+/-! ## The fingerprint sees every configured data folder -/
+
+/-- shape obligations on the two fingerprint functions of the CURRENT source: an unconfigured folder is `continue`d over
+    (no other exit from the loop), defaults + device names + device files are stamped with mtime and size, the call site
+    hands over the three folders; the config fingerprint hashes its three path parameters and stamps every cached file -/
+theorem fingerprint_shapes_wf :
+    Fingerprint.wfQuickHash Generated.CacheFingerprint.quickHash = true ∧
+    Fingerprint.wfConfigHash Generated.CacheFingerprint.configHash = true := by decide
+
+/-- **Every configured folder is in the fingerprint**, wherever it stands in `[data, restricted, add-ons]` and whichever
+    of the others is not configured. -/
+theorem fingerprint_covers_all_folders (paths : List (Option Fingerprint.Folder)) (f : Fingerprint.Folder)
+    (hf : some f ∈ paths) :
+    ∀ it ∈ Fingerprint.folderItems Generated.CacheFingerprint.quickHash f,
+      it ∈ Fingerprint.fpInputs Generated.CacheFingerprint.quickHash paths :=
+  Fingerprint.covers _ (by decide) paths f hf
+
+/-- **Any visible change of any configured folder changes what is hashed** (installing, updating or removing a
+    device file or the defaults of the data, restricted or add-ons folder) — so, SHA-1 collisions apart, a cache made
+    before the change fails the fingerprint comparison (`Sound` of the stale object holds vacuously). -/
+theorem fingerprint_sees_every_change (pre post : List (Option Fingerprint.Folder)) (f f' : Fingerprint.Folder)
+    (hne : Fingerprint.folderItems Generated.CacheFingerprint.quickHash f ≠
+           Fingerprint.folderItems Generated.CacheFingerprint.quickHash f') :
+    Fingerprint.fpInputs Generated.CacheFingerprint.quickHash (pre ++ some f :: post) ≠
+    Fingerprint.fpInputs Generated.CacheFingerprint.quickHash (pre ++ some f' :: post) :=
+  Fingerprint.sees_change _ (by decide) pre post f f' hne
+
+/-- why the `continue` matters: with `break` the add-ons folder behind an unconfigured restricted folder is invisible -/
+example : Fingerprint.fpInputs { Generated.CacheFingerprint.quickHash with noneAction := "break" }
+      [some ⟨some 1, [("dev", some 2)]⟩, none, some ⟨none, [("dev", some 3)]⟩] =
+    Fingerprint.fpInputs { Generated.CacheFingerprint.quickHash with noneAction := "break" }
+      [some ⟨some 1, [("dev", some 2)]⟩, none, some ⟨none, [("dev", some 4)]⟩] := by decide
+
+/-- … and the hypothesis of `fingerprint_sees_every_change` is satisfiable: an updated device file is a visible change -/
+example : Fingerprint.folderItems Generated.CacheFingerprint.quickHash ⟨none, [("dev", some 3)]⟩ ≠
+    Fingerprint.folderItems Generated.CacheFingerprint.quickHash ⟨none, [("dev", some 4)]⟩ := by decide
 
 /-! ## Non-vacuity -/
 
